@@ -48,6 +48,17 @@ func KVStore.Delete(recv, key) (err)
   ensures err == nil ==> kvHas == upd(old(kvHas), content(key), false)
   ensures err == nil ==> forall k Str :: k != content(key) ==> sel(kvVal, k) == sel(old(kvVal), k)
   ensures err != nil ==> kvHas == old(kvHas) && kvVal == old(kvVal)
+-- iteration hands the stored pairs to the consumer, sequentially in the caller's goroutine; bulk deletion only removes
+func KVStore.Iterate(recv, prefix, consumer, direction) (err)
+  opt invokes consumer
+func KVStore.IterateKeys(recv, prefix, consumer, direction) (err)
+  opt invokes consumer
+func KVStore.DeletePrefix(recv, prefix) (err)
+  modifies ghost(kvHas), ghost(kvVal)
+  ensures forall k Str :: sel(kvHas, k) ==> sel(old(kvHas), k) && sel(kvVal, k) == sel(old(kvVal), k)
+func KVStore.Clear(recv) (err)
+  modifies ghost(kvHas), ghost(kvVal)
+  ensures forall k Str :: sel(kvHas, k) ==> sel(old(kvHas), k) && sel(kvVal, k) == sel(old(kvVal), k)
 
 type TypedValue
   callback vToBytes(v) (b, err)
@@ -190,10 +201,32 @@ func TypedStore.Delete
 -- the consumer closures of Iterate / IterateKeys: a decode failure stops the iteration and is
 -- recorded in innerErr (which Iterate returns); otherwise the user callback decides and innerErr
 -- is left alone
+-- iteration and bulk deletion are the raw operations on the same prefix, in the same direction
+func TypedStore.Iterate
+  requires t != nil && t.kv != nil && callback != nil
+  callback callback(k, v) (adv)
+  modifies nothing
+  ghost before call KVStore.Iterate: assert arg0 == t.kv && arg1 == prefix && arg3 == direction
+func TypedStore.IterateKeys
+  requires t != nil && t.kv != nil && callback != nil
+  callback callback(k) (adv)
+  modifies nothing
+  ghost before call KVStore.IterateKeys: assert arg0 == t.kv && arg1 == prefix && arg3 == direction
+func TypedStore.DeletePrefix
+  requires t != nil && t.kv != nil
+  modifies ghost(kvHas), ghost(kvVal)
+  ghost before call KVStore.DeletePrefix: assert arg0 == t.kv && arg1 == prefix
+func TypedStore.Clear
+  requires t != nil && t.kv != nil
+  modifies ghost(kvHas), ghost(kvVal)
+  ghost before call KVStore.Clear: assert arg0 == t.kv
+
 func TypedStore.Iterate$1
   requires t != nil && *t != nil && innerErr != nil && callback != nil
   callback callback(k, v) (adv)
   modifies *innerErr
+  -- the consumer sees the decoded pair, and decides whether the iteration goes on
+  ghost before call TypedStore.Iterate$1#callback: assert arg0 == kdec(content(key)) && arg1 == dec(content(value))
   ensures !kdecOK(content(key)) ==> !r0 && *innerErr != nil
   ensures kdecOK(content(key)) && !decOK(content(value)) ==> !r0 && *innerErr != nil
   ensures kdecOK(content(key)) && decOK(content(value)) ==> *innerErr == old(*innerErr)
@@ -202,6 +235,7 @@ func TypedStore.IterateKeys$1
   requires t != nil && *t != nil && innerErr != nil && callback != nil
   callback callback(k) (adv)
   modifies *innerErr
+  ghost before call TypedStore.IterateKeys$1#callback: assert arg0 == kdec(content(key))
   ensures !kdecOK(content(key)) ==> !r0 && *innerErr != nil
   ensures kdecOK(content(key)) ==> *innerErr == old(*innerErr)
 @*/
